@@ -33,6 +33,13 @@ static void vp_vec(uint32_t s)
 	static unsigned how;
 	uint32_t seed = s, r;
 	unsigned h = how++ % (vp_NDRAW + 4);
+	/* somebody else in the process uses a generator of their own - and not by the book (a state with bit 31 set, zero, the
+	 * modulus itself): what this caller gets depends on its own state alone */
+	if (how % 3 == 0) {
+		static const uint32_t odd[] = { 0x80000000u, 0, 0x7fffffffu, 0xffffffffu };
+		uint32_t other = how % 2 ? (s | 0x80000000u) : odd[(how / 6) % 4];
+		(void) rand31_r(&other);
+	}
 	if (h < vp_NDRAW) { vp_stack_fill(h & 1 ? 0xff : 0); r = vp_draws[h](&seed); }
 	else if (h == vp_NDRAW) r = p_rand31_r(&seed);
 	else if (h == vp_NDRAW + 1) r = (rand31_r)(&seed);
@@ -72,6 +79,7 @@ static void vp_sweep(int nproc)
 		if (fork() == 0) {
 			unsigned long long bad = 0, n = 0, first = 0;
 			uint32_t *heap = malloc(sizeof(*heap));
+			{ uint32_t other = 0xdeadbeefu ^ (uint32_t)w; (void) rand31_r(&other); }      /* a foreign, out-of-range generator state was stepped earlier in this process */
 			for (uint32_t s = 1 + w; s < 0x7fffffffu; s += nproc) {
 				uint32_t seed = s, r = rand31_r(&seed), e = vp_ref(s);
 				if ((r != e || seed != e || e == 0 || e >= 0x7fffffffu) && !bad++) first = s;
